@@ -20,6 +20,19 @@ CLAIMED = {
             "Bounded: type parameters of the encoder harnesses are small concrete instances; allocation-proportional arguments of the "
             "length-accessor harnesses are bounded by 2^24. DP budget constructors (BigUint rationals) and verify_init argument checks "
             "are outside. Trusted: Kani/CBMC/CaDiCaL, rustc MIR.", "DESIGN.md §4 C16", False),
+    "C01": ("bounded symbolic model checking (Kani/CBMC) of the measurement codecs and of one complete prove/query/decide run over GF(17)",
+            "Narrow slice of the property: for every FLP type over GF(17) and every in-range measurement, encode_measurement yields the declared number of 0/1 "
+            "elements, decode_result(truncate(encode(m))) = m (Sum for every max_measurement in {1,2,3,4,5,7,8,15,16}; Histogram; MultihotCountVec; L1BoundSum; Average as f64), "
+            "sums of two truncated encodings decode to the sum, encodings satisfy the validity circuit, Average never refuses a large aggregate, and for Count a proof "
+            "generated with any prover randomness is accepted by query+decide for any admissible query randomness.",
+            "NOT covered: sharding, verification with real XOFs, aggregator counts, multi-proof, wire round trips inside the pipeline - see outside_claim in the evidence. "
+            "This check therefore cannot see defects that live only in Prio3's seed handling.", "DESIGN.md §4 C01", False),
+    "C05": ("bounded symbolic model checking (Kani/CBMC) of the validity circuits, decide, query refusal and length formulas over GF(17)",
+            "For each shipped circuit at small parameters, valid() equals the draft's formula written independently (all inputs, joint randomness and share counts 1..3, incl. the "
+            "zero-padded partial chunk and the 1/num_shares constants, the latter for every share count 1..1000 over GF(61441)); decide() equals the reference predicate for every verifier "
+            "message; declared proof/verifier/randomness lengths equal the structural formulas for ranges of parameters; wrong-length arguments to prove/query/decide are refused; "
+            "query refuses exactly the roots of unity of the wire-polynomial domain independently of the compression coefficients; Count: prove -> query -> decide accepts for all randomness.",
+            "Share-linearity of query and soundness as a probability are outside; circuits are exercised at the smallest parameters that reach every code path; GF(17).", "DESIGN.md §4 C05", False),
     "C07": ("bounded symbolic model checking (Kani/CBMC) of decoders/encoders on fully symbolic byte strings and values (decode contract + encode contract per message type)",
             "For each covered message type and small concrete instance, the decoder is run on *every* byte string of the honest length (and of the honest "
             "length +-1): it accepts exactly the strings whose elements are canonical, its fields equal the primitive decoders applied to the corresponding "
@@ -53,6 +66,13 @@ CLAIMED = {
             "evaluation points include the interpolation nodes; size errors for every size value.",
             "Field = GF(17) (hook instantiation of the unchanged generic code), sizes <= 16, sparse inputs above n = 4 (stated bound, not a linearity proof). "
             "The SizeTooLarge limits (2^19/2^20) are outside Kani's reach and are not claimed here.", "DESIGN.md §4 C10", True),
+    "C11": ("bounded symbolic model checking (Kani/CBMC) of Prng::get / generate_random from arbitrary buffer states over a symbolic byte stream",
+            "Prng::get is run once from an arbitrary valid internal state (32-byte buffer and read position symbolic) over a stream stub that returns arbitrary bytes: it returns the element of the "
+            "first chunk whose masked value is below the modulus, skips exactly the rejected chunks, consumes buffered chunks before refilling, refills exactly once when the buffer is exhausted "
+            "and keeps the stream position across into_new_field; generate_random reads one chunk at a time and rejects exactly the chunks >= p; the accept set of try_from_random is decided at "
+            "full width for the three shipped integer fields and Field255.",
+            "Chunking-independence and derived seeds of the hash-based XOFs are NOT covered (symbolic hash input); at most two consecutive rejections; GF(17)/GF(61441) for the Prng harnesses.",
+            "DESIGN.md §4 C11", False),
     "C12": ("bounded symbolic model checking (Kani/CBMC) of the generic ping-pong routines instantiated with an order-sensitive instrumented VDAF",
             "One step of leader_continued/helper_continued from an arbitrary host state (rounds 1..3, any round, both roles) under an arbitrary inbound message "
             "(every kind, every payload byte, wrong payload lengths) is compared with the draft's ping_pong_continued written independently: Initialize refused, "
